@@ -324,7 +324,10 @@ def assemble_files(texts: List[str], w: int, workdir: Path, tag: str):
             return {"ok": False, "err": f"{type(e).__name__}: {str(e)[:300]}"}
         except BaseException as e:  # noqa: BLE001
             return {"ok": False, "err": ("raw did-not-terminate-in-60s " if alarm.fired else "raw ") + f"{type(e).__name__}: {str(e)[:300]}"}
-    r = Reader(out)
+    try:
+        r = Reader(out)
+    except BaseException as e:  # noqa: BLE001      the assembler reported success but its output does not load
+        return {"ok": False, "err": f"raw output-unreadable {type(e).__name__}: {str(e)[:300]}"}
     return {"ok": True, "mem": dict(r.memory), "segs": [(s.segment_start, s.segment_length) for s in r.memory_segments],
             "table": load_debugging_labels(dbg)}
 
